@@ -67,7 +67,9 @@ namespace
     World *w; std::vector<Point<2>> coords; M *m = build<M>(w, coords, surf);
     const Point<3> pos(sym_f64("x"), sym_f64("y"), sym_f64("z"), cartesian); const Objects::NaturalCoordinate nc(pos, *w->parameters.coordinate_system);
     const double depth = sym_f64("depth"), old = sym_f64("Told"), fmin = sym_f64("fmin"), fmax = sym_f64("fmax");
+    sym_freeze(); sym_allow(&env);
     const double T = m->M::get_temperature(pos, nc, depth, sym_f64("gravity"), old, fmin, fmax);
+    sym_assert(sym_writes() == 0, "the model query stores only to fresh memory");
     double lmin, lmax; const bool in = in_model_range(m, depth, surf, lmin, lmax);
     if (in) sym_assert(sym_eq(T, combine(m->operation, old, m->temperature)), "uniform temperature: the configured value combined by the declared operation");
     else sym_assert(sym_eq(T, old), "outside its own range the model returns the incoming value");
@@ -82,7 +84,9 @@ namespace
     const Point<3> pos(sym_f64("x"), sym_f64("y"), sym_f64("z"), cartesian); const Objects::NaturalCoordinate nc(pos, *w->parameters.coordinate_system);
     const double depth = sym_f64("depth"), old = sym_f64("Told"), g = sym_f64("gravity");
     sym_assume(m->specific_heat != 0);
+    sym_freeze(); sym_allow(&env);
     const double T = m->M::get_temperature(pos, nc, depth, g, old, sym_f64("fmin"), sym_f64("fmax"));
+    sym_assert(sym_writes() == 0, "the model query stores only to fresh memory");
     double lmin, lmax; const bool in = in_model_range(m, depth, surf, lmin, lmax);
     if (in) sym_assert(sym_eq(T, combine(m->operation, old, m->potential_mantle_temperature * std::exp(m->thermal_expansion_coefficient * g * depth / m->specific_heat))), "adiabatic temperature: Tp*exp(alpha*g*depth/cp) with the model's constants");
     else sym_assert(sym_eq(T, old), "outside its own range the model returns the incoming value");
@@ -104,7 +108,9 @@ namespace
     const Point<3> pos(sym_f64("x"), sym_f64("y"), sym_f64("z"), cartesian); const Objects::NaturalCoordinate nc(pos, *w->parameters.coordinate_system);
     const double depth = sym_f64("depth"), old = sym_f64("Told"), g = sym_f64("gravity"), fmin = sym_f64("fmin"), fmax = sym_f64("fmax");
     sym_assume(fmin >= 0 && fmax >= fmin && depth >= fmin && depth <= fmax);          // interior point of the feature
+    sym_freeze(); sym_allow(&env);
     const double T = m->M::get_temperature(pos, nc, depth, g, old, fmin, fmax);
+    sym_assert(sym_writes() == 0, "the model query stores only to fresh memory");
     double lmin, lmax; const bool in = in_model_range(m, depth, surf, lmin, lmax);
     if (!in) { sym_assert(sym_eq(T, old), "outside its own range the model returns the incoming value"); sym_reach("end-out"); return; }
     // local top and bottom of the model's range inside the feature
@@ -123,7 +129,9 @@ namespace
     const Point<3> pos(sym_f64("x"), sym_f64("y"), sym_f64("z"), cartesian); const Objects::NaturalCoordinate nc(pos, *w->parameters.coordinate_system);
     const double depth = sym_f64("depth"), old = sym_f64("Told"), g = sym_f64("gravity"), fmin = sym_f64("fmin"), fmax = sym_f64("fmax");
     sym_assume(fmin >= 0 && fmax >= fmin && depth >= fmin && depth <= fmax && m->thermal_conductivity > 0);
+    sym_freeze(); sym_allow(&env);
     const double T = m->M::get_temperature(pos, nc, depth, g, old, fmin, fmax);
+    sym_assert(sym_writes() == 0, "the model query stores only to fresh memory");
     double lmin, lmax; const bool in = in_model_range(m, depth, surf, lmin, lmax);
     if (!in) { sym_assert(sym_eq(T, old), "outside its own range the model returns the incoming value"); sym_reach("end-out"); return; }
     const double top_d = std::max(fmin, lmin), z = depth - top_d;
@@ -140,7 +148,9 @@ namespace
     const Point<3> pos(sym_f64("x"), sym_f64("y"), sym_f64("z"), cartesian); const Objects::NaturalCoordinate nc(pos, *w->parameters.coordinate_system);
     const double depth = sym_f64("depth"), old = sym_f64("Cold"); const unsigned number = sym_u32("number");
     for (unsigned i = 0; i < m->compositions.size(); ++i) for (unsigned j = 0; j < i; ++j) sym_assume(m->compositions[i] != m->compositions[j]);   // a composition is listed once
+    sym_freeze(); sym_allow(&env);
     const double C = m->M::get_composition(pos, nc, depth, number, old, sym_f64("fmin"), sym_f64("fmax"));
+    sym_assert(sym_writes() == 0, "the model query stores only to fresh memory");
     double lmin, lmax; const bool in = in_model_range(m, depth, surf, lmin, lmax);
     if (!in) { sym_assert(sym_eq(C, old), "outside its own range the model returns the incoming value"); sym_reach("end-out"); return; }
     bool listed = false; double fraction = 0;
@@ -157,7 +167,9 @@ namespace
     World *w; std::vector<Point<2>> coords; M *m = build<M>(w, coords, surf);
     const Point<3> pos(sym_f64("x"), sym_f64("y"), sym_f64("z"), cartesian); const Objects::NaturalCoordinate nc(pos, *w->parameters.coordinate_system);
     const double depth = sym_f64("depth"); const std::array<double,3> old = {{sym_f64("v0"), sym_f64("v1"), sym_f64("v2")}};
+    sym_freeze(); sym_allow(&env);
     const std::array<double,3> V = m->M::get_velocity(pos, nc, depth, sym_f64("gravity"), old, sym_f64("fmin"), sym_f64("fmax"));
+    sym_assert(sym_writes() == 0, "the model query stores only to fresh memory");
     double lmin, lmax; const bool in = in_model_range(m, depth, surf, lmin, lmax);
     for (unsigned c = 0; c < 3; ++c)
       {
@@ -175,7 +187,9 @@ namespace
     const double depth = sym_f64("depth"); const unsigned number = sym_u32("number");
     WorldBuilder::grains old; old.sizes.resize(k); old.rotation_matrices.resize(k);
     for (unsigned i = 0; i < k; ++i) { old.sizes[i] = sym_f64("gs"); for (unsigned r = 0; r < 9; ++r) old.rotation_matrices[i][r/3][r%3] = sym_f64("gr"); }
+    sym_freeze(); sym_allow(&env);
     const WorldBuilder::grains G = m->M::get_grains(pos, nc, depth, number, old, sym_f64("fmin"), sym_f64("fmax"));
+    sym_assert(sym_writes() == 0, "the model query stores only to fresh memory");
     double lmin, lmax; const bool in = in_model_range(m, depth, surf, lmin, lmax);
     sym_assert(G.sizes.size() == k && G.rotation_matrices.size() == k, "grain count is preserved");
     const bool apply = in && m->compositions.size() == 1 && m->compositions[0] == number;
@@ -204,7 +218,9 @@ namespace
     const double depth = sym_f64("depth"), old = sym_f64("Told"), g = sym_f64("gravity"), fmin = sym_f64("fmin"), fmax = sym_f64("fmax");
     sym_assume(fmin >= 0 && fmax >= fmin && depth >= fmin && depth <= fmax);
     sym_assume(m->operation == Operations::REPLACE && m->top_temperature >= 0 && m->bottom_temperature >= m->top_temperature);     // physically ordered end members
+    sym_freeze(); sym_allow(&env);
     const double T = m->M::get_temperature(pos, nc, depth, g, old, fmin, fmax);
+    sym_assert(sym_writes() == 0, "the model query stores only to fresh memory");
     double lmin, lmax; const bool in = in_model_range(m, depth, surf, lmin, lmax);
     if (!in) { sym_reach("end-out"); return; }
     const double top_d = std::max(fmin, lmin), bot_d = std::min(fmax, lmax);
